@@ -64,6 +64,69 @@ theorem intersect_plain (a b : RC) (ha : a.WF) (hb : b.WF)
 
 end RC
 
+/-- shape of a member-level intersection: not a union, members well-formed, bounds among the operands' -/
+theorem RC.intersect_struct (a b : RC) (ha : a.WF) (hb : b.WF)
+    (hcase : ∀ r x, (a = .rng r ∧ b = .ver x) ∨ (a = .ver x ∧ b = .rng r) → ¬ RC.LocalMinCase r x)
+    (i : VC) (h : RC.intersect a b = .ok i) :
+    i.notUnion ∧ (∀ c ∈ i.flatten, c.WF) ∧ (∀ e ∈ i.bounds, e ∈ a.bounds ∨ e ∈ b.bounds) := by
+  refine ⟨RC.intersect_notUnion a b i h, ?_⟩
+  have verCase : ∀ (r : VRange) (x : Version), x.wf = true → ¬ RC.LocalMinCase r x →
+      (∀ c ∈ (RC.rngIntersectVer r x).flatten, c.WF) ∧
+      (∀ e ∈ (RC.rngIntersectVer r x).bounds, e = x) := by
+    intro r x hx hnl
+    unfold RC.rngIntersectVer
+    by_cases h1 : r.allows x = true
+    · simp only [h1, if_true]
+      exact ⟨by intro c hc; simp [VC.flatten] at hc; subst hc; exact hx,
+        by intro e he; simpa [VC.bounds, RC.bounds_ver] using he⟩
+    · rw [if_neg h1]
+      cases hm : r.min with
+      | none => simp [VC.flatten, VC.bounds]
+      | some m =>
+        simp only
+        by_cases h3 : (m.isLocal && x.allows m) = true
+        · exfalso
+          simp only [Bool.and_eq_true] at h3
+          exact hnl ⟨by simpa using h1, m, hm, h3.1, h3.2⟩
+        · rw [if_neg h3]; simp [VC.flatten, VC.bounds]
+  cases a with
+  | ver x =>
+    cases b with
+    | ver y =>
+      simp only [RC.intersect, Except.ok.injEq] at h; subst h
+      unfold RC.verIntersectVer
+      split
+      · exact ⟨by intro c hc; simp [VC.flatten] at hc; subst hc; exact hb,
+          by intro e he; exact Or.inr (by simpa [VC.bounds] using he)⟩
+      · split
+        · exact ⟨by intro c hc; simp [VC.flatten] at hc; subst hc; exact ha,
+            by intro e he; exact Or.inl (by simpa [VC.bounds] using he)⟩
+        · simp [VC.flatten, VC.bounds]
+    | rng s =>
+      simp only [RC.intersect, Except.ok.injEq] at h; subst h
+      obtain ⟨h1, h2⟩ := verCase s x ha (hcase s x (Or.inr ⟨rfl, rfl⟩))
+      exact ⟨h1, fun e he => Or.inl (by rw [h2 e he]; simp [RC.bounds_ver])⟩
+  | rng s =>
+    cases b with
+    | ver y =>
+      simp only [RC.intersect, Except.ok.injEq] at h; subst h
+      obtain ⟨h1, h2⟩ := verCase s y hb (hcase s y (Or.inl ⟨rfl, rfl⟩))
+      exact ⟨h1, fun e he => Or.inr (by rw [h2 e he]; simp [RC.bounds_ver])⟩
+    | rng t =>
+      simp only [RC.intersect] at h
+      rcases VRange.intersect_den s t ha hb with ⟨h', _⟩ | ⟨x, h', hx, _⟩ | ⟨r, h', hr, hrb, _⟩
+      · rw [h'] at h; cases h; simp [VC.flatten, VC.bounds]
+      · rw [h'] at h; cases h
+        have hxwf : x.wf = true := by
+          rcases hx with hx | hx
+          · exact ha.1 x hx
+          · exact hb.1 x hx
+        exact ⟨by intro c hc; simp [VC.flatten] at hc; subst hc; exact hxwf,
+          by intro e he; simp [VC.bounds, RC.bounds_ver] at he; subst he; exact hx⟩
+      · rw [h'] at h; cases h
+        exact ⟨by intro c hc; simp [VC.flatten] at hc; subst hc; exact hr,
+          by intro e he; exact hrb e (by simpa [VC.bounds, RC.bounds_rng] using he)⟩
+
 /-- some part admits the probe -/
 def anyPart (parts : List VC) (p : Version) : Prop := ∃ q ∈ parts, q.allowsPlain p = true
 
